@@ -5,6 +5,7 @@ import (
 	"go/token"
 	"go/types"
 	"sort"
+	"strconv"
 	"strings"
 
 	"pdfverif/internal/core"
@@ -31,6 +32,8 @@ func runC02(c *core.Ctx) {
 	ruleKeyFieldAgreement(c)
 	ruleOptionTables(c)
 	ruleStringEncryptionUnconditional(c, "C02-R6")
+	ruleWriteMethodsPure(c, "C02-R7", 9)
+	ruleXRefWidthAgreement(c)
 }
 
 func ruleXRefCompleteness(c *core.Ctx) {
@@ -607,3 +610,309 @@ func ruleOptionTables(c *core.Ctx) {
 
 // ruleNoArgMutation is implemented in mutarg.go (SSA based); this stub keeps
 // the rule list in one place.
+
+// rhsFor returns the expression assigned to obj by the vertex (nil, true for
+// a declaration without initial value).
+func rhsFor(info *types.Info, v *core.V, obj types.Object) (ast.Expr, bool) {
+	switch s := v.AST.(type) {
+	case *ast.AssignStmt:
+		if len(s.Lhs) != len(s.Rhs) || (s.Tok != token.ASSIGN && s.Tok != token.DEFINE) {
+			return nil, false
+		}
+		for i, l := range s.Lhs {
+			if id, ok := ast.Unparen(l).(*ast.Ident); ok && info.ObjectOf(id) == obj {
+				return s.Rhs[i], true
+			}
+		}
+	case *ast.ValueSpec:
+		for i, nm := range s.Names {
+			if info.ObjectOf(nm) == obj {
+				if len(s.Values) == 0 {
+					return nil, true
+				}
+				if len(s.Values) == len(s.Names) {
+					return s.Values[i], true
+				}
+			}
+		}
+	}
+	return nil, false
+}
+
+// stripConv removes parentheses and type conversions.
+func stripConv(info *types.Info, e ast.Expr) ast.Expr {
+	for {
+		e = ast.Unparen(e)
+		call, ok := e.(*ast.CallExpr)
+		if !ok || len(call.Args) != 1 {
+			return e
+		}
+		if tv, ok := info.Types[call.Fun]; !ok || !tv.IsType() {
+			return e
+		}
+		e = call.Args[0]
+	}
+}
+
+// ruleXRefWidthAgreement (C02-R8): the cross-reference stream is written in
+// two passes: the first sizes the columns (/W), the second emits the rows
+// with encodeInt64(wx, value, width), which silently truncates a value that
+// does not fit.  For the rows of objects in use (types 1 and 2) every value
+// emitted in a column must have been taken into account, under the same
+// condition, when that column was sized.
+func ruleXRefWidthAgreement(c *core.Ctx) {
+	const rule = "C02-R8"
+	fn := c.Prog.Func("pdf", "(*Writer).writeXRefStream")
+	g := fn.Graph()
+	info := fn.Info()
+	type emission struct {
+		v     *core.V
+		call  *ast.CallExpr
+		typ   int64
+		width types.Object
+	}
+	var ems []emission
+	for _, cv := range callVertices(g, "pdf.encodeInt64") {
+		if len(cv.Call.Args) != 3 {
+			continue
+		}
+		if _, isConst := core.IntConst(info, cv.Call.Args[1]); isConst {
+			continue
+		}
+		w := core.ObjOf(info, cv.Call.Args[2])
+		typ := int64(-1)
+		for _, wb := range callVerticesSuffix(g, ".WriteByte") {
+			if len(wb.Call.Args) == 1 && g.Dominates(wb.V, cv.V) && wb.V != cv.V {
+				if k, ok := core.IntConst(info, wb.Call.Args[0]); ok {
+					typ = k
+				}
+			}
+		}
+		ems = append(ems, emission{cv.V, cv.Call, typ, w})
+	}
+	c.Floor(rule, 4)
+	inUse := 0
+	for _, em := range ems {
+		em := em
+		if em.typ != 1 && em.typ != 2 {
+			continue
+		}
+		inUse++
+		key := fn.Key + "/type" + strconv.FormatInt(em.typ, 10) + "/" + c.Prog.Src(stripConv(info, em.call.Args[1]))
+		c.Check(rule, key, "the value emitted into a column of an in-use row was counted, under the same condition, when the column width was computed", func(o *core.Ob) {
+			o.At(fn.Site(em.call, "emission"))
+			if em.width == nil {
+				core.Undecided("width argument is not a variable")
+			}
+			// width variable -> maximum variable
+			wdefs := defVertices(g, em.width)
+			if len(wdefs) != 1 {
+				core.Undecided("width variable %s has %d definitions", em.width.Name(), len(wdefs))
+			}
+			wr, ok := rhsFor(info, wdefs[0], em.width)
+			if !ok || wr == nil {
+				core.Undecided("width definition not understood")
+			}
+			var maxVar types.Object
+			lens := core.CallsTo(info, wr, false, "math/bits.Len64")
+			if len(lens) != 1 {
+				core.Undecided("width %s is not derived from bits.Len64(max)", em.width.Name())
+			}
+			maxVar = core.ObjOf(info, stripConv(info, lens[0].Args[0]))
+			if maxVar == nil {
+				core.Undecided("argument of bits.Len64 is not a variable")
+			}
+			o.Require(g.Dominates(wdefs[0], em.v), "the width is computed before the rows are written")
+			// updates of the maximum: maxVar = F guarded by F > maxVar
+			var cands []struct {
+				upd *core.V
+				f   types.Object
+			}
+			for _, dv := range defVertices(g, maxVar) {
+				r, ok := rhsFor(info, dv, maxVar)
+				if !ok || r == nil {
+					continue
+				}
+				if _, isConst := core.IntConst(info, r); isConst {
+					continue
+				}
+				var f types.Object
+				var direct bool
+				if call, ok := ast.Unparen(r).(*ast.CallExpr); ok {
+					// maxVar = max(maxVar, F)
+					if id, ok := call.Fun.(*ast.Ident); ok && id.Name == "max" && len(call.Args) == 2 {
+						for _, a := range call.Args {
+							if core.ObjOf(info, a) != maxVar {
+								f = core.ObjOf(info, a)
+								direct = true
+							}
+						}
+					}
+				} else {
+					f = core.ObjOf(info, r)
+				}
+				if f == nil {
+					core.Undecided("update of %s not understood: %s", maxVar.Name(), c.Prog.Src(dv.AST))
+				}
+				if !direct {
+					ok := g.GuardedBy(dv, func(a core.Atom) bool {
+						cmp, ok := a.AsCmp()
+						if !ok {
+							return false
+						}
+						l, r := core.ObjOf(info, cmp.L), core.ObjOf(info, cmp.R)
+						return (l == f && r == maxVar && (cmp.Op == token.GTR || cmp.Op == token.GEQ)) ||
+							(l == maxVar && r == f && (cmp.Op == token.LSS || cmp.Op == token.LEQ))
+					})
+					if !ok {
+						core.Undecided("update of %s is not guarded by %s > %s", maxVar.Name(), f.Name(), maxVar.Name())
+					}
+				}
+				cands = append(cands, struct {
+					upd *core.V
+					f   types.Object
+				}{dv, f})
+			}
+			if len(cands) == 0 {
+				core.Undecided("no update of %s found", maxVar.Name())
+			}
+			want := stripConv(info, em.call.Args[1])
+			// The two passes are separate loops over the same table: identify
+			// the loop variables (same for-clause) and the entry variables
+			// (same definition) of the two loops.
+			subst := map[types.Object]ast.Expr{}
+			var loopHead *core.V
+			loopSig := ""
+			canon := func(v *core.V, tag string) *core.V {
+				// enclosing for statement of v
+				var loop *ast.ForStmt
+				ast.Inspect(fn.Decl, func(n ast.Node) bool {
+					if fs, ok := n.(*ast.ForStmt); ok && v.AST != nil && fs.Pos() <= v.AST.Pos() && v.AST.End() <= fs.End() {
+						loop = fs
+					}
+					return true
+				})
+				if loop == nil || loop.Init == nil || loop.Cond == nil || loop.Post == nil {
+					core.Undecided("%s is not inside a three-clause for loop", tag)
+				}
+				as, ok := loop.Init.(*ast.AssignStmt)
+				if !ok || len(as.Lhs) != 1 {
+					core.Undecided("%s: loop initialisation not understood", tag)
+				}
+				iv := core.ObjOf(info, as.Lhs[0])
+				sig := c.Prog.Src(loop.Init) + ";" + c.Prog.Src(loop.Cond) + ";" + c.Prog.Src(loop.Post)
+				if loopSig != "" && sig != loopSig {
+					core.Undecided("the two passes use different loops: %q vs %q", loopSig, sig)
+				}
+				loopSig = sig
+				subst[iv] = &ast.Ident{Name: as.Lhs[0].(*ast.Ident).Name}
+				// variables defined in the loop body from the loop variable only
+				for _, st := range loop.Body.List {
+					if a, ok := st.(*ast.AssignStmt); ok && a.Tok == token.DEFINE && len(a.Lhs) == 1 && len(a.Rhs) == 1 {
+						if ix, ok := a.Rhs[0].(*ast.IndexExpr); ok && core.ObjOf(info, ix.Index) == iv {
+							subst[core.ObjOf(info, a.Lhs[0])] = &ast.Ident{Name: c.Prog.Src(a.Rhs[0])}
+						}
+					}
+				}
+				if len(loop.Body.List) == 0 {
+					core.Undecided("%s: empty loop body", tag)
+				}
+				loopHead = nil
+				for _, bv := range g.BranchVertices() {
+					if bv.Cond.Expr == loop.Cond {
+						loopHead = bv
+					}
+				}
+				if loopHead == nil {
+					core.Undecided("%s: loop head not found", tag)
+				}
+				return g.MustVertexOf(loop.Body.List[0])
+			}
+			canon(em.v, "emission")
+			emLoopObjs := map[types.Object]bool{}
+			for k := range subst {
+				emLoopObjs[k] = true
+			}
+			var emAtoms []core.Atom
+			for _, a := range g.DominatingAtoms(em.v) {
+				for obj := range emLoopObjs {
+					if core.Mentions(info, a.Expr, obj) {
+						emAtoms = append(emAtoms, a)
+						break
+					}
+				}
+			}
+			emConds := core.Formula{Fn: fn, Atoms: emAtoms, Subst: subst}
+			found := false
+			var tried []string
+			for _, cd := range cands {
+				// the test that precedes the update (or the update itself for max())
+				use := cd.upd
+				for _, bv := range g.BranchVertices() {
+					if bv.Cond.Expr != nil && g.EdgeDominates(cd.upd, core.EdgeRef{From: bv, Label: core.EdgeTrue}) && condMentions(g, bv, cd.f) && condMentions(g, bv, maxVar) {
+						use = bv
+					}
+				}
+				bodyStart := canon(use, "width computation")
+				fdefs := defVertices(g, cd.f)
+				for _, fd := range fdefs {
+					r, ok := rhsFor(info, fd, cd.f)
+					o.Count(1)
+					if !ok || r == nil {
+						continue
+					}
+					// the assignment reaches the use without being overwritten
+					var others []*core.V
+					for _, x := range fdefs {
+						if x != fd {
+							others = append(others, x)
+						}
+					}
+					if !g.ReachFrom(fd, false, core.AvoidVs(others...).With(loopHead))[use] {
+						continue
+					}
+					// under the emission's condition: this assignment is executed
+					// and not overwritten, and the value counted is the value emitted
+					if !g.GuardsSufficient(bodyStart, fd, use, loopHead) {
+						tried = append(tried, c.Prog.Pos(fd.AST.Pos())+": reach condition not exact")
+						continue
+					}
+					atoms := append([]core.Atom{}, g.DominatingAtoms(fd)...)
+					for _, x := range others {
+						if g.ReachFrom(fd, false, core.AvoidVs(loopHead))[x] && g.ReachFrom(x, false, core.AvoidVs(fd, loopHead))[use] {
+							// a later assignment may overwrite this one: it must be
+							// unreachable under the emission's condition
+							both := core.Formula{Fn: fn, Atoms: append(append([]core.Atom{}, emAtoms...), g.DominatingAtoms(x)...), Subst: subst}
+							unsat, _, dec := c.Prog.Implies(both, core.Formula{Fn: fn, Atoms: []core.Atom{{Expr: core.FalseExpr}}})
+							if !dec {
+								core.Undecided("overwrite condition not decided")
+							}
+							if !unsat {
+								atoms = append(atoms, core.Atom{Expr: core.FalseExpr})
+							}
+						}
+					}
+					atoms = append(atoms, core.Atom{Expr: &ast.BinaryExpr{X: stripConv(info, r), Op: token.EQL, Y: want}})
+					asg := core.Formula{Fn: fn, Atoms: atoms, Subst: subst}
+					holds, counter, decided := c.Prog.Implies(emConds, asg)
+					if !decided {
+						core.Undecided("implication between path conditions not decided: %s", counter)
+					}
+					if holds {
+						found = true
+						o.At(fn.Site(fd.AST, "counted here under "+c.Prog.FormulaString(core.Formula{Atoms: g.DominatingAtoms(fd)})))
+					} else {
+						tried = append(tried, c.Prog.Pos(fd.AST.Pos())+": counted only under "+c.Prog.FormulaString(core.Formula{Atoms: g.DominatingAtoms(fd)})+"; not for "+counter)
+					}
+				}
+			}
+			if !found {
+				o.FailAt(fn.Site(em.call, ""), "%s is written with width %s under (%s), but the width computation does not count it under that condition [%s]; encodeInt64 truncates silently",
+					c.Prog.Src(want), em.width.Name(), c.Prog.FormulaString(emConds), strings.Join(tried, "; "))
+			}
+		})
+	}
+	if inUse == 0 {
+		c.Check(rule, fn.Key+"/emissions", "in-use rows found", func(o *core.Ob) { core.Undecided("no encodeInt64 emission for type 1/2 rows found") })
+	}
+}
